@@ -72,4 +72,68 @@ def gen(rng, tier):
                 a = digits(rng, la); b = digits(rng, lb)
                 reqs.append("C01 raw.add2 %s %s" % (wl(a), wl(b)))
                 reqs.append("C01 raw.add2 %s %s" % (wl([MAX] * la), wl([MAX] * lb)))
+    # api-coverage block: trait `CheckedAdd/CheckedSub for BigInt` (ops `*_t`) on the carry/borrow patterns above,
+    # all four sign combinations, equal magnitudes with opposite signs (result zero), zero operands
+    ls = lengths(rng, tier)
+    for la in ls[:: (1 if tier == "thorough" else 3)]:
+        for lb in {la, max(0, la - 1), la + 5}:
+            for (a, b) in pair_patterns(rng, la, lb)[:6]:
+                op = rng.choice(["i.checked_add_t", "i.checked_sub_t"])
+                reqs.append("C01 %s %s %s" % (op, wi(signed(rng, a)), wi(signed(rng, b))))
+    for a in (0, 1, MAX, B, val([MAX] * 5), val([MAX] * 6), big(rng, 11)):
+        for b in (0, 1, a, a + 1, MAX):
+            for (sa, sb) in ((1, 1), (1, -1), (-1, 1), (-1, -1)):
+                reqs.append("C01 i.checked_add_t %s %s" % (wi(sa * a), wi(sb * b)))
+                reqs.append("C01 i.checked_sub_t %s %s" % (wi(sa * a), wi(sb * b)))
+    reqs += scalar_requests(rng, tier)
     return reqs
+
+
+SC_BITS = {"u8": 8, "u16": 16, "u32": 32, "u64": 64, "u128": 128, "usize": 64,
+           "i8": 8, "i16": 16, "i32": 32, "i64": 64, "i128": 128, "isize": 64}
+
+def scalar_requests(rng, tier):
+    """api-coverage block: scalar addition / subtraction forms (ops `u./i. add_s s_add add_assign_s sub_s s_sub
+    sub_assign_s`).  Scalars: 0, 1, MAX, MIN, -1, one- and two-digit values (u128/i128: the `[lo, hi]` split, lo = 0,
+    hi = MAX); big operand: zero, shorter / as long as / longer than the scalar, all-ones digits (carry out of the
+    scalar's digits into the tail, growth by one digit), B^k (borrow through zero digits down to the top digit),
+    |s|, |s|±1 (cancellation to zero, BigUint underflow by one), all sign combinations for BigInt."""
+    out = []
+    k = 0
+    thorough = tier == "thorough"
+    for t, bits in SC_BITS.items():
+        sg = t.startswith("i")
+        mx = (1 << (bits - 1)) - 1 if sg else (1 << bits) - 1
+        mn = -(1 << (bits - 1)) if sg else 0
+        scal = [0, 1, mx, mx - 1, 1 << (bits // 2), rng.randrange(1, mx + 1)]
+        if bits == 128:
+            scal += [MAX, B, B + 1, MAX << 64, (MAX << 64) & mx, (1 << 96) + 5, rng.randrange(B, mx + 1)]
+        if sg:
+            scal += [mn, mn + 1, -1, -rng.randrange(1, mx + 1)]
+        if thorough:
+            scal += [rng.randrange(mn, mx + 1) for _ in range(10)]
+        scal = [s for s in dict.fromkeys(scal) if mn <= s <= mx]
+        for s in scal:
+            a = abs(s)
+            bigs = [0, 1, a, a + 1, max(a - 1, 0), MAX, B, val([MAX] * 2), val([MAX] * 3), val([MAX] * 6), val([0, 0, 1]),
+                    val([0] * 5 + [1]), big(rng, 2), big(rng, 7), big(rng, 40), (1 << bits) - 1, 1 << bits]
+            if not thorough:
+                rng.shuffle(bigs)
+                bigs = bigs[:10] + [a, a + 1]
+            for i, m in enumerate(bigs):
+                tok = "%s:%d" % (t, s)
+                names = ["add_s", "s_add", "add_assign_s", "sub_s", "s_sub", "sub_assign_s"]
+                k += 1
+                if not sg:
+                    op = names[k % 6]
+                    if op in ("s_add", "s_sub"):
+                        out.append("C01 u.%s %s %s" % (op, tok, wu(m)))
+                    else:
+                        out.append("C01 u.%s %s %s" % (op, wu(m), tok))
+                sm = -m if (k // 6) % 2 else m
+                op = names[(k + 3 + k // 12) % 6]
+                if op in ("s_add", "s_sub"):
+                    out.append("C01 i.%s %s %s" % (op, tok, wi(sm)))
+                else:
+                    out.append("C01 i.%s %s %s" % (op, wi(sm), tok))
+    return out
